@@ -68,6 +68,8 @@ def same_value(val, txt):
     """does the recovered text stand for the value that was set?  strings exactly; numbers by value, and the text
     must be a plain decimal literal"""
     if isinstance(val, (int, float)) and not isinstance(val, bool):
+        if isinstance(val, int) and not txt.lstrip('+-').isdigit():
+            return False          # an int is written as an integer literal ("7", never "7.0")
         try:
             return 'e' not in txt.lower() and Decimal(txt) == Decimal(repr(val))
         except ArithmeticError:
@@ -208,6 +210,9 @@ def check(plan, script):
 
 def replay_case(rec):
     inp = rec['input']
+    if inp.get('after_float_warm_up'):
+        from .c08 import float_warm_up
+        float_warm_up()
     return check(inp['plan'], inp['script'])[0]
 
 
@@ -234,6 +239,14 @@ def run_shard(ctx, shard, acc):
     names = sorted(n for n, t in s.element_type.items() if t not in c14.EXCLUDED_TYPES)
     carriers = [n for n in CARRIERS if n in names]
 
+    warm = shard['index'] % 2 == 1
+    if warm:
+        # "changes no later result": half of the shards first serialise the whole-number FLOAT twin of every integer
+        # the generators can draw; how an int is written afterwards must not depend on that
+        from .c08 import float_warm_up
+        float_warm_up()
+        acc.count('shards-after-float-warm-up')
+
     def body(data):
         el = data.draw(st.sampled_from(carriers)) if data.draw(st.integers(0, 5)) > 0 \
             else data.draw(st.sampled_from(names))
@@ -255,6 +268,8 @@ def run_shard(ctx, shard, acc):
             acc.case({'plan': plan, 'script': script}, bool(log) and interesting(log) and sub, len(str(plan)))
             acc.count('injected-strings', len(log))
         if f:
+            if warm:
+                f['input']['after_float_warm_up'] = 1
             acc.fail(f)
 
     hyp_search(acc, body, mix(ctx.seed, 'C16', shard['index']), ctx.budget(700, 14000))
